@@ -140,6 +140,21 @@ func Run(r *core.Run) {
 		M{"publicKey": []any{mkKey("hub", "JsonWebKey2020", "jwk", []any{"authentication"}, 1)}, "service": []any{M{"id": "hub", "type": "A", "serviceEndpoint": "https://hub.example/"}}},
 		M{"publicKey": []any{mkKey("a", "JsonWebKey2020", "jwk", []any{"authentication"}, 1), mkKey("b", "Ed25519VerificationKey2018", "jwk", []any{"assertionMethod"}, 2)},
 			"service": []any{M{"id": "b", "type": "B", "serviceEndpoint": "https://b.example/"}, M{"id": "c", "type": "C", "serviceEndpoint": "https://c.example/"}, M{"id": "a", "type": "A", "serviceEndpoint": []any{"https://a.example/"}}}})
+	// JWKs are exposed as they are: further members of any JSON type (RFC 7517 kid, alg, use, key_ops, ext, x5c), OKP keys without y, RSA keys
+	{
+		rich := mkKey("rich", "JsonWebKey2020", "jwk", []any{"authentication", "assertionMethod"}, 4)
+		for n, v := range (M{"kid": "key-1", "alg": "ES256", "use": "sig", "key_ops": []any{"verify"}, "ext": true, "x5c": []any{"MIIB", "MIIC"}, "x5t#S256": "abc", "nested": M{"a": []any{1.0, nil}}, "num": 1.5}) {
+			rich["publicKeyJwk"].(M)[n] = v
+		}
+		okp := M{"id": "okp", "type": "X25519KeyAgreementKey2019", "purposes": []any{"keyAgreement"}, "publicKeyJwk": M{"kty": "OKP", "crv": "X25519", "x": "hSDwCYkwp1R0i33ctD73Wg2_Og0mOBr066SpjqqbTmo"}}
+		rsa := M{"id": "rsa", "type": "JsonWebKey2020", "purposes": []any{"authentication"}, "publicKeyJwk": M{"kty": "RSA", "n": "sXchDaQebHnPiGvyDOAT4saGEUetSyo9MKLOoWFsueri23bOdgWp4Dy1WlUzewbgBHod5pcM9H95GQRV3JDXboIRROSBigeC5yjU1hGzHHyXss8UDprecbAYxknTcQkhslANGRUZmdTOQ5qTRsLAt6BTYuyvVRdhS8exSZEy_c4gs_7svlJJQ4H9_NxsiIoLwAEk7-Q3UXERGYw_75IDrGA84-lA_-Ct4eTlXHBIY2EaV7t7LjJaynVJCpkv4LKjTTAumiGUIuQhrNhZLuF_RJLqHpM2kgWFLU7-VTdL1VbC2tejvcI2BlMkEpk1BzBZI0KQB0GaDWFLN-aEAw3vRw", "e": "AQAB", "kid": "r"}}
+		for _, k := range []M{rich, okp, rsa} {
+			if !rules.ValidKey(k) {
+				core.Engine("c18: JWK-form fixture invalid: %v", k)
+			}
+		}
+		docs = append(docs, M{"publicKey": []any{rich}}, M{"publicKey": []any{okp}}, M{"publicKey": []any{rsa}}, M{"publicKey": []any{rich, okp, rsa}, "service": []any{svcA}})
+	}
 	r.Extra["documents"] = len(docs)
 	type optCase struct {
 		name string
